@@ -40,7 +40,21 @@
 //!    crowd, four visible hits sit behind six unreadable ones, and the same walks are compared
 //!    across S1 / S2),
 //!    and a command family whose permission p does not hold (search / read_history / export /
-//!    project) is refused;
+//!    project) is refused - also a plain FIND whose request binds it to the past by
+//!    `read.snapshot_token`;
+//!    the JOURNAL BLOCK closes every base script: transactions whose changes are all visible to p,
+//!    mixed and all hidden, committed under an idempotency key (stated for the request / for the
+//!    operation) and without one, single- and multi-change, a keyed CREATE classified by the next
+//!    commit, two transactions under one key; every hidden target is ANOTHER hidden element in S2.
+//!    Battery family `journal` asks about them through EVERY entry point that answers from the
+//!    transaction journal, the version log or the change feed (Spec 68; meta/history.rs,
+//!    describe.rs, kql bind_read): DESCRIBE TRANSACTION by id and BY IDEMPOTENCY KEY, HISTORY SPACE /
+//!    ELEMENT (exact sequence, range, LIMIT, CURSOR, paged to the end; of the hidden elements too),
+//!    CHANGES AFTER SEQ / CHANGES SINCE walked by cursor, SNAPSHOT / DESCRIBE SNAPSHOT / DESCRIBE
+//!    SCHEMA ENVIRONMENT AS OF TX | SEQ | TIME, FIND / EXPORT AS OF TX | SEQ | TIME, FIND under a
+//!    snapshot token. Besides the two-run oracle, per store: every change record p is shown is one
+//!    the owner is shown under the same transaction id (complete answers), none is a change of an
+//!    element p may not read, and the chronology of such an element is empty;
 //!  * authority timeline: after a revocation / suspension / expiry / explicit deny, p's next
 //!    request equals that of a fresh principal which only ever held what p still holds, and a
 //!    principal holding nothing is refused every FIND/SEARCH/HISTORY/CHANGES/EXPORT/PREVIEW;
@@ -59,6 +73,17 @@
 //!    raises no element's influence authority (host API) where it is refused; the delegate's
 //!    chain-naming session is held to the same oracles, and once the delegate's own (last)
 //!    Delegation is revoked both of its sessions are refused every read of the Space's content;
+//!  * the standing of a delegator (section `standing`): a delegator that is a co-owner (listed in
+//!    `owners`), the `owner_principal`, a grantee, a member of a granted group, allowed by a Policy
+//!    statement, or itself a delegate (under a co-owner / a grantee) delegates to P, which
+//!    re-delegates to SUB in every other case; then its standing changes, event after event:
+//!    suspended, reactivated, revoked, reactivated, the standing taken away (removed from `owners`,
+//!    `owner_principal` reassigned, Grant revoked, group left, statement withdrawn, its own
+//!    Delegation revoked) and given back, its upstream suspended, its Grant's `valid_until` passing.
+//!    After every event the principals DOWNSTREAM ask first (plain and chain-naming sessions): while
+//!    the delegator holds nothing, it answers like a principal that never held anything and every
+//!    principal downstream like a fresh one holding only what it holds beside the Delegation;
+//!    whatever is refused to the delegator is never answered to them;
 //!  * no self-escalation: no KML/KQL/META command of any session changes a gov_* collection
 //!    (audit may gain rows), a Space's governance columns or an existing element's governance
 //!    block; no session without write authority gets a mutation executed; a writer whose ceiling is
@@ -121,6 +146,13 @@ enum PVal {
     TailTx(u64),
     /// the Space sequence right after step i of the script (every step is one commit)
     SeqOfStep(usize),
+    /// the Space sequence right before step i of the script (`CHANGES AFTER SEQ` starts there)
+    SeqBeforeStep(usize),
+    /// the id of the transaction that step i of the script committed
+    TxOfStep(usize),
+    /// the id string of an element p may not read: another element in S2 (mode hidden_elements),
+    /// so that the owner sees two different journal rows under one transaction id / idempotency key
+    HiddenId { s1: String, s2: String },
 }
 
 #[derive(Clone, Debug)]
@@ -129,6 +161,22 @@ enum Step {
     Kml { cmd: String, params: Vec<(String, PVal)>, binds: Vec<(String, String)> },
     /// host classify API, as the owner
     Classify { sym: String, label: &'static str },
+    /// like `Kml`, committed under an idempotency key (stated for the whole request, or - `at_operation` -
+    /// for the operation)
+    Keyed { key: String, at_operation: bool, cmd: String, params: Vec<(String, PVal)>, binds: Vec<(String, String)> },
+}
+
+/// One transaction of the journal block (`journal_block`): what the history-read battery asks about
+/// through every entry point that answers from the journal, the version log or the change feed.
+#[derive(Clone, Debug)]
+struct JournalTx {
+    /// index of its step in `Script::steps` (one step = one commit)
+    step: usize,
+    /// the idempotency key it committed under
+    key: Option<String>,
+    /// which of its changes p can possibly read: "visible" (all), "mixed" (some), "hidden" (none)
+    class: &'static str,
+    tag: &'static str,
 }
 
 #[derive(Clone, Debug, Default)]
@@ -171,6 +219,12 @@ struct Script {
     /// assertions (and one evidence record) appended to the base script whose reference members
     /// have another target in S2 under a mask that hides the member
     late: Vec<Late>,
+    /// the transactions of the journal block, in commit order (the last steps of the base script)
+    journal: Vec<JournalTx>,
+    /// symbol of the visible person the journal block updates
+    journal_visible: String,
+    /// symbol of the hidden Concept the journal block creates under a key
+    vault: String,
 }
 
 /// A proposition with the same id in S1 and S2 whose tuple differs where p's mask hides the member.
@@ -271,6 +325,9 @@ impl World {
                     PVal::Hidden(i) => script.hidden_vals[if self.vary_hidden { variant } else { 0 }][*i].clone(),
                     PVal::TailTx(k) => json!(format!("{DEFAULT_SPACE}#{}", self.base_seq + k)),
                     PVal::SeqOfStep(i) => json!(self.start_seq + *i as u64 + 1),
+                    PVal::SeqBeforeStep(i) => json!(self.start_seq + *i as u64),
+                    PVal::TxOfStep(i) => json!(format!("{DEFAULT_SPACE}#{}", self.start_seq + *i as u64 + 1)),
+                    PVal::HiddenId { s1, s2 } => json!(self.id(if variant == 1 && self.vary_hidden { s2 } else { s1 })),
                     PVal::MaskedAttr(i) => script.hidden_vals[if self.vary_attrs { variant } else { 0 }][*i].clone(),
                     PVal::MaskedFacet(i) => script.hidden_vals[if self.vary_facets { variant } else { 0 }][*i].clone(),
                     PVal::MaskedStance(i) => script.hidden_vals[if self.vary_stance { variant } else { 0 }][*i].clone(),
@@ -290,10 +347,61 @@ fn element_id(id: &str) -> Result<ElementId, String> {
     id.parse::<ElementId>().map_err(|e| format!("bad element id {id}: {e:?}"))
 }
 
+/// Parses and executes one command whose request envelope carries more than the command and its
+/// parameters: the top-level members of `envelope` (`execution`, `read`, ..) are merged into the
+/// request, the members of `envelope.op` into the operation.
+async fn exec_env<E: anda_kip::Executor + Sync>(ex: &E, command: &str, params: &Value, envelope: &Value) -> Result<anda_kip::Response, String> {
+    let mut op = json!({"command": command});
+    if params.as_object().is_some_and(|m| !m.is_empty()) {
+        op["parameters"] = params.clone();
+    }
+    let mut req = json!({"kip": "2.0"});
+    for (k, v) in envelope.as_object().into_iter().flatten() {
+        if k == "op" {
+            for (ok, ov) in v.as_object().into_iter().flatten() {
+                op[ok.as_str()] = ov.clone();
+            }
+        } else {
+            req[k.as_str()] = v.clone();
+        }
+    }
+    req["operations"] = json!([op]);
+    let request = serde_json::from_value::<anda_kip::Request>(req).map_err(|e| format!("request envelope: {e}"))?;
+    let parsed = request.operations[0].parse().map_err(|e| format!("parse error: {} {}", e.name(), e.message))?;
+    Ok(ex.execute(parsed, &request, &request.operations[0]).await)
+}
+
+/// The envelope of a mutation committed under an idempotency key.
+fn keyed_envelope(key: &str, at_operation: bool) -> Value {
+    if at_operation {
+        json!({"op": {"idempotency_key": key}})
+    } else {
+        json!({"execution": {"mode": "independent", "idempotency_key": key}})
+    }
+}
+
+/// The snapshot token of a coordinate (what `SNAPSHOT AS OF SEQ n` answers; a request carrying it
+/// in `read.snapshot_token` reads at that coordinate).
+fn snapshot_token(seq: u64) -> String {
+    format!("kip:snapshot:{DEFAULT_SPACE}:{seq}").bytes().map(|b| format!("{b:02x}")).collect()
+}
+
 async fn run_steps(w: &mut World, script: &Script, steps: &[Step], variant: usize) -> Result<(), String> {
     let owner = w.nx.system_session();
     for st in steps {
         match st {
+            Step::Keyed { key, at_operation, cmd, params, binds } => {
+                let p = w.params(script, variant, params);
+                let r = exec_env(&owner, cmd, &p, &keyed_envelope(key, *at_operation)).await?;
+                if r.status != anda_kip::TopLevelStatus::Succeeded {
+                    return Err(format!("keyed command failed: {cmd} params={p} key={key} -> {}", serde_json::to_string(&r).unwrap_or_default()));
+                }
+                let r = r.first_result().cloned().unwrap_or(Value::Null);
+                for (h, s) in binds {
+                    let id = r["handles"][h].as_str().ok_or_else(|| format!("no handle {h} in {r}"))?;
+                    w.sym.insert(s.clone(), id.to_string());
+                }
+            }
             Step::Kml { cmd, params, binds } => {
                 let p = w.params(script, variant, params);
                 let r = exec_ok(&owner, cmd, &p).await?;
@@ -656,7 +764,85 @@ fn gen_script(rng: &mut Rng, size: usize) -> Script {
         // (the tail's concepts come after them)
         s.first_tail_concept = format!("C-{}", s.persons.len() + 2 + 3);
     }
+    // the journal block: the last steps of the base script, again from a stream of its own
+    let mut r3 = Rng::new(rng.clone().next_u64() ^ 0x10C_B10C);
+    journal_block(&mut s, &mut r3);
     s
+}
+
+/// Appends the journal block to the base script: transactions whose changes are all visible, mixed
+/// and all hidden, committed under an idempotency key (stated for the request or for the operation)
+/// and without one, single- and multi-change, a CREATE that is classified afterwards, the
+/// classification itself, and two transactions under ONE key (the engine records a key, it does not
+/// replay: the first one - all hidden - is what a lookup by key finds). Every hidden target is
+/// ANOTHER hidden element in S2 (mode hidden_elements): the owner sees two different journal rows
+/// under the same transaction id / key, p must see the same thing. The updates write an attribute
+/// of their own (`jr`), so that nothing the rest of the battery reads changes.
+fn journal_block(s: &mut Script, r: &mut Rng) {
+    let vis: Vec<String> = s.persons.iter().filter(|p| !s.hidden.contains(*p)).cloned().collect();
+    if vis.len() < 2 {
+        return; // (persons 0 and 1 are always visible)
+    }
+    let (vis0, vis1) = (vis[0].clone(), vis[1].clone());
+    let vault = "vault".to_string();
+    // a second hidden element beside the padding element: a hidden person of the script where
+    // there is one, the vault otherwise
+    let other_hidden = s.persons.iter().find(|p| s.hidden.contains(*p)).cloned().unwrap_or_else(|| vault.clone());
+    s.journal_visible = vis0.clone();
+    s.vault = vault.clone();
+    let mut jr = 0u64;
+    let mut next = || {
+        jr += 1;
+        PVal::Lit(json!(jr))
+    };
+    let id = |s: &str| PVal::Id(s.to_string());
+    let hid = |s1: &str, s2: &str| PVal::HiddenId { s1: s1.to_string(), s2: s2.to_string() };
+    let one = "UPDATE :a SET ATTRIBUTES {jr: :r1}".to_string();
+    let two = "MUTATE { UPDATE :a SET ATTRIBUTES {jr: :r1}\nUPDATE :b SET ATTRIBUTES {jr: :r2} }".to_string();
+    let words = |r: &mut Rng| format!("{} {}", r.pick(&WORDS), r.pick(&WORDS));
+    // --- a hidden Concept created under a key, classified by the next commit
+    s.hidden_vals[0].push(json!(words(r)));
+    s.hidden_vals[1].push(json!(words(r)));
+    let name = PVal::Hidden(s.hidden_vals[0].len() - 1);
+    s.steps.push(Step::Keyed {
+        key: "job:vault".into(),
+        at_operation: false,
+        cmd: r#"CREATE CONCEPT ?c { TYPE "Person" NAME :name SET ATTRIBUTES {nickname: "vault", jr: 0} }"#.into(),
+        params: vec![("name".into(), name)],
+        binds: vec![("c".into(), vault.clone())],
+    });
+    s.journal.push(JournalTx { step: s.steps.len() - 1, key: Some("job:vault".into()), class: "hidden", tag: "hidden_create" });
+    s.steps.push(Step::Classify { sym: vault.clone(), label: HIDDEN_LABEL });
+    s.journal.push(JournalTx { step: s.steps.len() - 1, key: None, class: "hidden", tag: "hidden_classify" });
+    s.hidden.insert(vault.clone());
+    // (the tail's first Concept comes one later)
+    if let Some(n) = s.first_tail_concept.strip_prefix("C-").and_then(|n| n.parse::<u64>().ok()) {
+        s.first_tail_concept = format!("C-{}", n + 1);
+    }
+    // --- (tag, class, key, stated for the operation, command, a, b)
+    let rows: Vec<(&'static str, &'static str, Option<&str>, bool, &String, PVal, Option<PVal>)> = vec![
+        ("visible", "visible", Some("job:visible"), true, &one, id(&vis0), None),
+        ("mixed", "mixed", Some("job:mixed"), false, &two, id(&vis0), Some(hid(PAD, &vault))),
+        ("hidden", "hidden", Some("job:hidden"), false, &one, hid(PAD, &other_hidden), None),
+        ("hidden_multi", "hidden", Some("job:hidden2"), true, &two, id(PAD), Some(hid(&vault, &other_hidden))),
+        ("mixed_unkeyed", "mixed", None, false, &two, hid(PAD, &vault), Some(id(&vis1))),
+        ("visible_multi", "visible", Some("job:visible2"), false, &two, id(&vis1), Some(id(&vis0))),
+        ("resent_first", "hidden", Some("job:resent"), false, &one, hid(PAD, &vault), None),
+        ("resent_second", "visible", Some("job:resent"), false, &one, id(&vis0), None),
+        ("hidden_unkeyed", "hidden", None, false, &one, hid(&vault, PAD), None),
+    ];
+    for (tag, class, key, at_operation, cmd, a, b) in rows {
+        let mut params = vec![("a".to_string(), a), ("r1".to_string(), next())];
+        if let Some(b) = b {
+            params.push(("b".to_string(), b));
+            params.push(("r2".to_string(), next()));
+        }
+        s.steps.push(match key {
+            Some(k) => Step::Keyed { key: k.to_string(), at_operation, cmd: cmd.clone(), params, binds: vec![] },
+            None => Step::Kml { cmd: cmd.clone(), params, binds: vec![] },
+        });
+        s.journal.push(JournalTx { step: s.steps.len() - 1, key: key.map(str::to_string), class, tag });
+    }
 }
 
 const PREDICATES: [&str; 3] = ["prefers", "mentions", "status"];
@@ -1494,13 +1680,18 @@ struct Q {
     /// page with LIMIT/CURSOR until exhaustion (the command contains `LIMIT :lim` and the cursor
     /// clause is appended)
     paged: Option<u64>,
+    /// the paged walk follows a change feed: the command reads `CHANGES SINCE :cur LIMIT :lim` and
+    /// every answer's `next_cursor` is the next `:cur` (the first one is the parameter `cur`)
+    since: bool,
+    /// the request carries `read.snapshot_token` for the coordinate right after this script step
+    token_of_step: Option<usize>,
 }
 
 fn q(family: &'static str, cmd: &str) -> Q {
-    Q { family, cmd: cmd.to_string(), params: vec![], paged: None }
+    Q { family, cmd: cmd.to_string(), params: vec![], paged: None, since: false, token_of_step: None }
 }
 fn qp(family: &'static str, cmd: &str, params: Vec<(&str, PVal)>) -> Q {
-    Q { family, cmd: cmd.to_string(), params: params.into_iter().map(|(k, v)| (k.to_string(), v)).collect(), paged: None }
+    Q { family, cmd: cmd.to_string(), params: params.into_iter().map(|(k, v)| (k.to_string(), v)).collect(), paged: None, since: false, token_of_step: None }
 }
 
 /// `links`: with the entries that select on reference members a mask can hide (the tuple of a
@@ -1667,6 +1858,8 @@ fn battery(rng: &mut Rng, s: &Script, links: bool) -> Vec<Q> {
     b.push(q("sequence", "SNAPSHOT"));
     b.push(q("sequence", "DESCRIBE SPACE"));
     b.push(q("sequence", "DESCRIBE SNAPSHOT"));
+    // --- every entry point that answers from the journal, the version log or the change feed
+    journal_battery(&mut b, s, links);
     // --- EXPORT
     b.push(q("export", r#"EXPORT CAPSULE ?c WHERE { ?c CONCEPT {type: "Person"} }"#));
     b.push(q("export", r#"EXPORT CAPSULE ?a WHERE { ?a ASSERTION {} } WITH {closure: "referential", provenance_depth: 2}"#));
@@ -1687,6 +1880,98 @@ fn battery(rng: &mut Rng, s: &Script, links: bool) -> Vec<Q> {
     // --- PREVIEW computes an effect over real state
     b.push(qp("preview", "PREVIEW KML :cmd", vec![("cmd", lit(json!(r#"ARCHIVE ?c WHERE { ?c CONCEPT {type: "Person"} } LIMIT 50"#)))]));
     b
+}
+
+/// Family `journal`: the transactions of the journal block (all-visible, mixed, all-hidden; keyed
+/// and unkeyed) asked about through EVERY entry point that answers from the transaction journal,
+/// the version log or the change feed (Spec 68 and meta/history.rs, describe.rs, kql bind_read):
+///  * one journal row: `DESCRIBE TRANSACTION <id>`, `DESCRIBE TRANSACTION BY IDEMPOTENCY KEY <key>`
+///    (every transaction / every key of the block, a key two transactions share, a key never used);
+///  * chronology: `HISTORY SPACE` / `HISTORY ELEMENT <id>` (a visible element, the hidden ones) over
+///    an exact sequence, a range, open-ended, with LIMIT, with a CURSOR of its own, paged to the end;
+///  * the change feed: `CHANGES AFTER SEQ` (unlimited, LIMIT 1 right before one transaction, LIMIT
+///    2 / 3) and `CHANGES SINCE <cursor>` walked by `next_cursor` to the end;
+///  * coordinates: `SNAPSHOT` / `DESCRIBE SNAPSHOT` / `DESCRIBE SCHEMA ENVIRONMENT` AS OF TX (of a
+///    hidden-only transaction) / SEQ / TIME (long ago, far ahead);
+///  * the version log: `FIND .. AS OF TX | SEQ | TIME`, `EXPORT CAPSULE .. AS OF TX`, and a plain
+///    FIND in a request that carries `read.snapshot_token` - at the coordinate where the hidden
+///    Concept of the block had just been created and was not yet classified, and at a hidden-only one.
+fn journal_battery(b: &mut Vec<Q>, s: &Script, full: bool) {
+    journal_battery_full(b, s);
+    if !full {
+        // the timeline / delegation monitors (one instance, many sessions and phases)
+        thin_journal(b, 5);
+    }
+}
+
+/// Keeps every k-th entry of the journal family: lookups by id and by key, chronology, feed and
+/// version log still mix, over all-visible, mixed and all-hidden transactions.
+fn thin_journal(b: &mut Vec<Q>, k: usize) {
+    let mut n = 0;
+    b.retain(|q| {
+        if q.family != "journal" {
+            return true;
+        }
+        n += 1;
+        n % k == 1
+    });
+}
+
+fn journal_battery_full(b: &mut Vec<Q>, s: &Script) {
+    let (Some(first), Some(last)) = (s.journal.first().map(|j| j.step), s.journal.last().map(|j| j.step)) else { return };
+    let lit = |v: Value| PVal::Lit(v);
+    let step_of = |tag: &str| s.journal.iter().find(|j| j.tag == tag).map(|j| j.step).unwrap_or(first);
+    let mut keys_seen = BTreeSet::new();
+    for j in &s.journal {
+        b.push(qp("journal", "DESCRIBE TRANSACTION :tx", vec![("tx", PVal::TxOfStep(j.step))]));
+        if let Some(k) = j.key.as_ref().filter(|k| keys_seen.insert((*k).clone())) {
+            b.push(qp("journal", "DESCRIBE TRANSACTION BY IDEMPOTENCY KEY :key", vec![("key", lit(json!(k)))]));
+        }
+    }
+    b.push(q("journal", r#"DESCRIBE TRANSACTION BY IDEMPOTENCY KEY "job:never-sent""#));
+    // one transaction of each class: the exact range, and the first entry the feed delivers after the commit before it
+    for tag in ["mixed", "hidden", "hidden_create"] {
+        let i = step_of(tag);
+        b.push(qp("journal", "HISTORY SPACE FROM SEQ :s TO SEQ :s", vec![("s", PVal::SeqOfStep(i))]));
+        b.push(qp("journal", "CHANGES AFTER SEQ :s LIMIT 1", vec![("s", PVal::SeqBeforeStep(i))]));
+    }
+    let (a, z, a0) = (PVal::SeqOfStep(first), PVal::SeqOfStep(last), PVal::SeqBeforeStep(first));
+    let (vis, pad, vault) = (PVal::Id(s.journal_visible.clone()), PVal::Id(PAD.to_string()), PVal::Id(s.vault.clone()));
+    // --- chronology
+    b.push(qp("journal", "HISTORY SPACE FROM SEQ :a TO SEQ :z", vec![("a", a.clone()), ("z", z.clone())]));
+    b.push(qp("journal", "HISTORY SPACE FROM SEQ :a", vec![("a", a.clone())]));
+    b.push(Q { paged: Some(3), ..qp("journal", "HISTORY SPACE FROM SEQ :a TO SEQ :z LIMIT :lim", vec![("a", a.clone()), ("z", z.clone())]) });
+    b.push(qp("journal", "HISTORY SPACE FROM SEQ :a LIMIT 2 CURSOR 1", vec![("a", a.clone())]));
+    b.push(qp("journal", "HISTORY SPACE FROM SEQ :a TO SEQ :z LIMIT 4 CURSOR :c", vec![("a", a.clone()), ("z", z.clone()), ("c", lit(json!("2")))]));
+    b.push(qp("journal", "HISTORY ELEMENT :id FROM SEQ :a TO SEQ :z", vec![("id", vis.clone()), ("a", a.clone()), ("z", z.clone())]));
+    b.push(Q { paged: Some(1), ..qp("journal", "HISTORY ELEMENT :id FROM SEQ :a LIMIT :lim", vec![("id", vis.clone()), ("a", a.clone())]) });
+    b.push(qp("journal", "HISTORY ELEMENT :id", vec![("id", pad.clone())]));
+    b.push(qp("journal", "HISTORY ELEMENT :id", vec![("id", vault.clone())]));
+    b.push(Q { paged: Some(1), ..qp("journal", "HISTORY ELEMENT :id LIMIT :lim", vec![("id", vault.clone())]) });
+    b.push(qp("journal", "HISTORY ELEMENT :id FROM SEQ :s TO SEQ :s", vec![("id", vault.clone()), ("s", PVal::SeqOfStep(step_of("hidden_create")))]));
+    // --- the change feed
+    b.push(qp("journal", "CHANGES AFTER SEQ :s", vec![("s", a0.clone())]));
+    b.push(qp("journal", "CHANGES AFTER SEQ :s LIMIT 2", vec![("s", a0.clone())]));
+    b.push(qp("journal", "CHANGES AFTER SEQ :s LIMIT 3", vec![("s", PVal::SeqOfStep(step_of("visible")))]));
+    b.push(Q { paged: Some(2), since: true, ..qp("journal", "CHANGES SINCE :cur LIMIT :lim", vec![("cur", a0.clone())]) });
+    b.push(q("journal", r#"CHANGES SINCE "0" LIMIT 500"#));
+    // --- coordinates
+    let (tx_hidden, tx_mixed, tx_create) = (PVal::TxOfStep(step_of("hidden")), PVal::TxOfStep(step_of("mixed")), PVal::TxOfStep(step_of("hidden_create")));
+    b.push(qp("journal", "SNAPSHOT AS OF TX :tx", vec![("tx", tx_hidden.clone())]));
+    b.push(qp("journal", "SNAPSHOT AS OF SEQ :s", vec![("s", PVal::SeqOfStep(step_of("hidden_multi")))]));
+    b.push(qp("journal", "DESCRIBE SNAPSHOT AS OF TX :tx", vec![("tx", tx_mixed.clone())]));
+    b.push(q("journal", r#"SNAPSHOT AS OF TIME "2999-01-01T00:00:00Z""#));
+    b.push(qp("journal", "SNAPSHOT AS OF TIME :t", vec![("t", lit(json!(LONG_AGO)))]));
+    b.push(qp("journal", "DESCRIBE SCHEMA ENVIRONMENT AS OF TX :tx", vec![("tx", tx_hidden.clone())]));
+    // --- the version log
+    b.push(qp("journal", r#"FIND(?c.id, ?c.attributes.jr) WHERE { ?c CONCEPT {type: "Person"} } AS OF TX :tx"#, vec![("tx", tx_mixed.clone())]));
+    b.push(qp("journal", r#"FIND(?c.id, ?c.name) WHERE { ?c CONCEPT {type: "Person"} } AS OF TX :tx"#, vec![("tx", tx_create.clone())]));
+    b.push(qp("journal", r#"FIND(?c) WHERE { ?c CONCEPT {id: :id} } AS OF SEQ :s"#, vec![("id", vault.clone()), ("s", PVal::SeqOfStep(step_of("hidden_create")))]));
+    b.push(qp("journal", r#"FIND(COUNT(?c), MAX(?c.attributes.jr)) WHERE { ?c CONCEPT {} } AS OF TX :tx"#, vec![("tx", tx_hidden.clone())]));
+    b.push(q("journal", r#"FIND(?c.id, ?c.attributes.jr) WHERE { ?c CONCEPT {} } AS OF TIME "2999-01-01T00:00:00Z""#));
+    b.push(qp("journal", r#"EXPORT CAPSULE ?c WHERE { ?c CONCEPT {type: "Person"} } AS OF TX :tx"#, vec![("tx", tx_create.clone())]));
+    b.push(Q { token_of_step: Some(step_of("hidden_create")), ..q("journal", r#"FIND(?c.id, ?c.name, ?c.attributes.jr) WHERE { ?c CONCEPT {type: "Person"} }"#) });
+    b.push(Q { token_of_step: Some(step_of("hidden_create")), ..qp("journal", r#"FIND(?c) WHERE { ?c CONCEPT {id: :id} }"#, vec![("id", vault.clone())]) });
 }
 
 /// Battery entries that select on REFERENCE members a field mask can hide. Every entry names the
@@ -1785,8 +2070,12 @@ fn link_battery(b: &mut Vec<Q>, s: &Script) {
 /// page).
 async fn observe(sess: &Session, w: &World, script: &Script, variant: usize, q: &Q) -> Value {
     let mut params = w.params(script, variant, &q.params);
+    let envelope = match q.token_of_step {
+        Some(i) => json!({"read": {"snapshot_token": snapshot_token(w.start_seq + i as u64 + 1)}}),
+        None => Value::Null,
+    };
     match q.paged {
-        None => match exec(sess, &q.cmd, &params).await {
+        None => match exec_env(sess, &q.cmd, &params, &envelope).await {
             Ok(r) => response_json(&r),
             Err(e) => json!({"harness_parse_error": e}),
         },
@@ -1798,9 +2087,11 @@ async fn observe(sess: &Session, w: &World, script: &Script, variant: usize, q: 
                 let mut cmd = q.cmd.clone();
                 if let Some(c) = &cursor {
                     params["cur"] = json!(c);
-                    cmd.push_str(" CURSOR :cur");
+                    if !q.since {
+                        cmd.push_str(" CURSOR :cur");
+                    }
                 }
-                let r = match exec(sess, &cmd, &params).await {
+                let r = match exec_env(sess, &cmd, &params, &envelope).await {
                     Ok(r) => r,
                     Err(e) => {
                         pages.push(json!({"harness_parse_error": e}));
@@ -1965,8 +2256,30 @@ fn first_diff(a: &Value, b: &Value, path: &str) -> Option<String> {
 /// are counted under `violations_seen[..]`.
 static PENDING: std::sync::Mutex<Vec<(String, Value)>> = std::sync::Mutex::new(Vec::new());
 
+/// Genuine defects of the unchanged tree found by the journal family and the standing monitor that
+/// wait for their repair (proposals with probes: /tmp/patches/C19-history-element-of-unreadable-id,
+/// C19-snapshot-token-needs-read-history, C19-suspended-intermediate-delegator; all three with the
+/// probes as one test file: C19-b19r3-all-three-with-probes.diff). While this is `false` their four
+/// signatures are COUNTED under `pending_repair[..]` and not reported, so that the check is silent on
+/// the unchanged tree; set it to `true` once the repairs are in /repo (validated: with the three
+/// repairs applied the check is silent with the flag on, quick seeds 1-6 and thorough seed 7).
+const REPORT_DEFECTS_PENDING_REPAIR: bool = true;
+const PENDING_REPAIR: [&str; 4] = [
+    // HISTORY ELEMENT <id> of an unreadable element lists the transactions that wrote it beside a readable one
+    HISTORY_OF_UNREADABLE,
+    // a FIND bound to the past by `read.snapshot_token` is answered without `read_history`
+    "C19/gate/read_history/read_bound_by_snapshot_token_answered_without_the_permission",
+    // a suspended / revoked INTERMEDIATE delegate's re-delegations keep working
+    "C19/standing/delegate_of_a_delegate/suspend/downstream_next_request_differs_from_a_principal_without_the_delegation",
+    "C19/standing/delegate_of_a_delegate/revoke_principal/downstream_next_request_differs_from_a_principal_without_the_delegation",
+];
+
 fn report(st: &mut Stats, sig: String, mut detail: Value) {
     static SEEN: std::sync::Mutex<BTreeMap<String, u32>> = std::sync::Mutex::new(BTreeMap::new());
+    if !REPORT_DEFECTS_PENDING_REPAIR && PENDING_REPAIR.contains(&sig.as_str()) {
+        st.count(&format!("pending_repair[{sig}]"));
+        return;
+    }
     let n = {
         let mut g = SEEN.lock().unwrap();
         let e = g.entry(sig.clone()).or_insert(0);
@@ -2170,10 +2483,17 @@ async fn search_paging_checks(sess: &Session, st: &mut Stats, case: u64, cfg: &G
 }
 
 /// The permission a battery command needs and p does not hold under `cfg`, if any.
-fn missing_permission(cfg: &GovCfg, cmd: &str) -> Option<&'static str> {
+fn missing_permission(cfg: &GovCfg, q: &Q) -> Option<&'static str> {
+    let cmd = q.cmd.as_str();
     let holds = |a: &str| cfg.holds(a);
     let needs: &[&'static str] = if cmd.starts_with("SEARCH") {
         &["search"]
+    } else if cmd.starts_with("DESCRIBE SCHEMA ENVIRONMENT") && cmd.contains(" AS OF ") {
+        &["discover", "read_history"]
+    } else if cmd.starts_with("FIND") && q.token_of_step.is_some() {
+        // a read bound to a past coordinate by the envelope is a historical read like `AS OF`
+        // (gate.rs: "a historical read asks for `read_history` on top of `read`")
+        &["read_history"]
     } else if cmd.starts_with("HISTORY") || cmd.starts_with("CHANGES") || cmd.starts_with("SNAPSHOT") || cmd.starts_with("DESCRIBE SNAPSHOT") || cmd.starts_with("DESCRIBE TRANSACTION") {
         &["read_history"]
     } else if cmd.starts_with("EXPORT") {
@@ -2186,6 +2506,148 @@ fn missing_permission(cfg: &GovCfg, cmd: &str) -> Option<&'static str> {
         &[]
     };
     needs.iter().find(|n| !holds(n)).copied()
+}
+
+/// The ids of the elements p certainly may not read in this instance: the hidden ones of the
+/// base script and everything the tail created.
+fn hidden_ids(w: &World, script: &Script) -> BTreeSet<String> {
+    script.hidden.iter().filter_map(|s| w.sym.get(s)).chain(w.sym.iter().filter(|(k, _)| k.starts_with("tail_")).map(|(_, v)| v)).cloned().collect()
+}
+
+/// (transaction id, element id, op, version) of every change record of every journal entry in an
+/// answer (an object with `tx_id` and `changes`, at any depth: single entries, lists, pages), and
+/// the number of entries that list no change at all.
+fn journal_records(v: &Value, out: &mut BTreeSet<(String, String, String, String)>, without_changes: &mut u64) {
+    match v {
+        Value::Object(m) => {
+            if let (Some(Value::String(tx)), Some(Value::Array(changes))) = (m.get("tx_id"), m.get("changes")) {
+                if changes.is_empty() {
+                    *without_changes += 1;
+                }
+                for c in changes {
+                    out.insert((tx.clone(), c["id"].as_str().unwrap_or("").to_string(), c["op"].to_string(), c["version"].to_string()));
+                }
+            }
+            m.values().for_each(|x| journal_records(x, out, without_changes));
+        }
+        Value::Array(a) => a.iter().for_each(|x| journal_records(x, out, without_changes)),
+        _ => {}
+    }
+}
+
+/// The journal entries of an answer (all pages) that list at least one change, in answer order.
+fn entries_with_changes(v: &Value) -> Vec<Value> {
+    fn walk(v: &Value, out: &mut Vec<Value>) {
+        match v {
+            Value::Object(m) => {
+                if let (Some(Value::String(_)), Some(Value::Array(changes))) = (m.get("tx_id"), m.get("changes")) {
+                    if !changes.is_empty() {
+                        out.push(v.clone());
+                    }
+                    return;
+                }
+                m.values().for_each(|x| walk(x, out));
+            }
+            Value::Array(a) => a.iter().for_each(|x| walk(x, out)),
+            _ => {}
+        }
+    }
+    let mut out = vec![];
+    walk(v, &mut out);
+    out
+}
+
+/// `HISTORY ELEMENT <id>` of an element the caller may not read lists the transactions that
+/// touched it beside a readable element (with an empty change list): the id exists, and when it
+/// was written. Asking for such an id must answer like asking for one that was never written.
+const HISTORY_OF_UNREADABLE: &str = "C19/journal/history_element/of_an_unreadable_element_lists_the_transactions_that_touched_it";
+
+/// The entry point a journal command goes through (a stable signature / counter key).
+fn entry_point(cmd: &str) -> &'static str {
+    [
+        ("DESCRIBE TRANSACTION BY IDEMPOTENCY KEY", "describe_transaction_by_idempotency_key"),
+        ("DESCRIBE TRANSACTION", "describe_transaction"),
+        ("HISTORY SPACE", "history_space"),
+        ("HISTORY ELEMENT", "history_element"),
+        ("CHANGES AFTER SEQ", "changes_after_seq"),
+        ("CHANGES SINCE", "changes_since"),
+    ]
+    .iter()
+    .find(|(prefix, _)| cmd.starts_with(prefix))
+    .map(|(_, name)| *name)
+    .unwrap_or("other")
+}
+
+/// The per-store journal oracle: on ONE instance, every change record p is shown through a journal
+/// entry point (a) is one the owner is shown under the same transaction id (complete answers only:
+/// unlimited, or walked to the end) and (b) is not a change of an element p may not read - whatever
+/// the entry point, whether the transaction's changes are all visible, mixed or all hidden, whether
+/// it was committed under a key. Entries that list no change at all are counted (a lookup by the
+/// caller's own idempotency key answers that way by design).
+#[allow(clippy::too_many_arguments)]
+fn journal_store_checks(st: &mut Stats, case: u64, cfg: &GovCfg, store: &str, hidden: &BTreeSet<String>, script: &Script, q: &Q, params: &Value, p_answer: &Value, owner_answer: &Value) {
+    let ep = entry_point(&q.cmd);
+    if ep == "other" || is_denied(p_answer) {
+        return;
+    }
+    // which transaction of the journal block a single-row lookup names
+    let class = match ep {
+        "describe_transaction_by_idempotency_key" => script.journal.iter().find(|j| j.key.as_deref() == params["key"].as_str() && j.key.is_some()).map(|j| j.class),
+        "describe_transaction" => q.params.iter().find_map(|(_, v)| if let PVal::TxOfStep(i) = v { script.journal.iter().find(|j| j.step == *i).map(|j| j.class) } else { None }),
+        _ => None,
+    };
+    if let Some(class) = class {
+        st.count(&format!("journal_lookups_{}_{class}", if ep == "describe_transaction" { "by_id" } else { "by_key" }));
+    }
+    if !succeeded(p_answer) {
+        return;
+    }
+    let (mut shown, mut owners) = (BTreeSet::new(), BTreeSet::new());
+    let (mut bare, mut owners_bare) = (0, 0);
+    journal_records(p_answer, &mut shown, &mut bare);
+    journal_records(owner_answer, &mut owners, &mut owners_bare);
+    st.eval();
+    st.count("journal_store_checks");
+    st.count(&format!("journal_store_checks_{ep}"));
+    st.add("journal_change_records_shown_to_p", shown.len() as u64);
+    if bare > 0 {
+        st.add(&format!("journal_entries_without_a_change_shown_to_p_{ep}"), bare);
+    }
+    if class == Some("mixed") && !shown.is_empty() && shown.len() < owners.len() {
+        st.count("journal_mixed_transaction_partly_shown_to_p");
+    }
+    if class == Some("visible") && !shown.is_empty() {
+        st.count("journal_visible_transaction_shown_to_p");
+    }
+    let ctx = |what: &str, records: Vec<&(String, String, String, String)>| {
+        json!({"case": case, "section": "ni", "store": store, "what": what, "entry_point": ep, "config": format!("{cfg:?}"), "query": q.cmd, "params": params, "records(tx, element, op, version)": records,
+            "transaction_of_the_journal_block": class, "elements_p_may_not_read": hidden, "p": short(p_answer, 1500), "owner": short(owner_answer, 1500)})
+    };
+    if ep == "history_element" && params["id"].as_str().is_some_and(|id| hidden.contains(id)) {
+        // "asking for it by id answers the same as asking for one that was never written"
+        st.count("journal_history_of_an_unreadable_element_checks");
+        if bare > 0 || !shown.is_empty() {
+            report(st, HISTORY_OF_UNREADABLE.into(), ctx("the chronology of an element p may not read is not empty", shown.iter().collect()));
+        }
+    }
+    let leaked: Vec<_> = shown.iter().filter(|r| hidden.contains(&r.1)).collect();
+    if !leaked.is_empty() {
+        report(st, format!("C19/journal/{ep}/lists_a_change_of_an_element_the_caller_may_not_read"), ctx("a journal entry shown to p names an element p may not read", leaked));
+    }
+    // (the owner's answer is complete: not cut at a LIMIT - the feed has a default one - with more to come)
+    let last = match owner_answer {
+        Value::Array(pages) => pages.last().unwrap_or(&Value::Null),
+        one => one,
+    };
+    let more_to_come = !last["next_cursor"].is_null() || !last["results"][0]["next_cursor"].is_null();
+    let complete = (q.paged.is_some() || !q.cmd.contains("LIMIT")) && !more_to_come;
+    if complete && succeeded(owner_answer) {
+        st.count("journal_subset_checks");
+        let extra: Vec<_> = shown.difference(&owners).collect();
+        if !extra.is_empty() {
+            report(st, format!("C19/journal/{ep}/shows_a_change_the_owner_is_not_shown"), ctx("a change record shown to p is not in the owner's answer to the same command", extra));
+        }
+    }
 }
 
 fn ni_case(case: u64, rng: &mut Rng, st: &mut Stats, thorough: bool) {
@@ -2258,7 +2720,11 @@ fn ni_case(case: u64, rng: &mut Rng, st: &mut Stats, thorough: bool) {
         }
     }
     let hidden_as = if per_kind.is_empty() { hidden_as } else { HiddenAs::PerKind(per_kind, Box::new(hidden_as)) };
-    let bat = battery(rng, &script, true);
+    let mut bat = battery(rng, &script, true);
+    if case % 2 == 1 {
+        // (every other configuration asks a third of the journal family: its cost is the version log)
+        thin_journal(&mut bat, 3);
+    }
     let mut search_terms: Vec<String> = (0..2).map(|_| rng.pick(&WORDS).to_string()).collect();
     if let Some(w) = &script.crowd_word {
         search_terms.push(w.clone());
@@ -2322,6 +2788,7 @@ fn ni_case(case: u64, rng: &mut Rng, st: &mut Stats, thorough: bool) {
         }
         let mut nontrivial = false;
         let mut allowed_some = false;
+        let (hidden1, hidden2) = (hidden_ids(&w1, &script), hidden_ids(&w2, &script));
         for q in &bat {
             let a1 = mask(&observe(&p1, &w1, &script, 0, q).await);
             let a2 = mask(&observe(&p2, &w2, &script, 1, q).await);
@@ -2345,15 +2812,16 @@ fn ni_case(case: u64, rng: &mut Rng, st: &mut Stats, thorough: bool) {
             }
             // the command gate: a family whose permission p does not hold is refused (Spec 29:
             // search, read_history, export and project are permissions of their own)
-            if let Some(missing) = missing_permission(&cfg, &q.cmd) {
+            if let Some(missing) = missing_permission(&cfg, q) {
                 st.count("gate_checks_permission_not_held");
                 st.count(&format!("gate_checks_permission_not_held_{missing}"));
                 for (store, ans) in [("S1", &a1), ("S2", &a2)] {
                     if !is_denied(ans) {
                         report(
                             st,
-                            format!("C19/gate/{missing}/answered_without_the_permission"),
-                            json!({"case": case, "store": store, "config": format!("{cfg:?}"), "query": q.cmd, "params": w1.params(&script, 0, &q.params), "answer": short(ans, 1200)}),
+                            // (a read bound to the past by `read.snapshot_token` has a signature of its own)
+                            if q.token_of_step.is_some() { format!("C19/gate/{missing}/read_bound_by_snapshot_token_answered_without_the_permission") } else { format!("C19/gate/{missing}/answered_without_the_permission") },
+                            json!({"case": case, "section": "ni", "store": store, "config": format!("{cfg:?}"), "query": q.cmd, "params": w1.params(&script, 0, &q.params), "bound_by_snapshot_token_of_sequence": q.token_of_step.map(|i| w1.start_seq + i as u64 + 1), "answer": short(ans, 1200)}),
                         );
                     }
                 }
@@ -2417,6 +2885,9 @@ fn ni_case(case: u64, rng: &mut Rng, st: &mut Stats, thorough: bool) {
                     // the same rows, but one answer stops at a result cap (and offers a cursor) where
                     // the other does not: whether a source's max_results applied depended on masked members
                     Mode::MaskedFields if cfg.any_result_cap() && capped_prefix(&a1, &a2) => "C19/ni/masked_fields/result_cap_applied_depends_on_masked_members".to_string(),
+                    // the chronology of an element p may not read lists transactions (with an empty change
+                    // list) on one instance only; everything else the two walks show is the same
+                    _ if entry_point(&q.cmd) == "history_element" && entries_with_changes(&a1) == entries_with_changes(&a2) => HISTORY_OF_UNREADABLE.to_string(),
                     _ => format!("C19/ni/{}/{}", mode.tag(), q.family),
                 };
                 report(
@@ -2434,14 +2905,23 @@ fn ni_case(case: u64, rng: &mut Rng, st: &mut Stats, thorough: bool) {
                             [w1.id(&t.s1.0), t.s1.1, w1.id(&t.s1.2)], [w1.id(&t.s2.0), t.s2.1, w1.id(&t.s2.2)]])).collect::<Vec<_>>() } else { vec![] },
                         "s2_only_tail": if mode == Mode::HiddenElements { script.tail.iter().map(|t| match t {
                             Step::Kml { cmd, params, .. } => format!("{cmd}  {}", w2.params(&script, 1, params)),
+                            Step::Keyed { key, cmd, params, .. } => format!("[key {key}] {cmd}  {}", w2.params(&script, 1, params)),
                             Step::Classify { sym, label } => format!("classify({}, {label})", w2.id(sym)),
                         }).collect::<Vec<_>>() } else { vec![] },
+                        "journal_block": script.journal.iter().map(|j| json!({"tx": format!("{DEFAULT_SPACE}#{}", w1.start_seq + j.step as u64 + 1), "key": j.key, "changes": j.class, "tag": j.tag})).collect::<Vec<_>>(),
                         "p_on_s1": short(&a1, 1500), "p_on_s2": short(&a2, 1500)}),
                 );
             }
             // sanity: the difference between S1 and S2 is observable to the owner
             let b1 = mask(&observe(&o1, &w1, &script, 0, q).await);
             let b2 = mask(&observe(&o2, &w2, &script, 1, q).await);
+            // per store: what p is shown of the journal is part of what the owner is shown, and
+            // names no element p may not read
+            if matches!(q.family, "journal" | "history" | "changes" | "tail_tx" | "describe_list") {
+                for (store, w, hidden, variant, ap, ao) in [("S1", &w1, &hidden1, 0, &a1, &b1), ("S2", &w2, &hidden2, 1, &a2, &b2)] {
+                    journal_store_checks(st, case, &cfg, store, hidden, &script, q, &w.params(&script, variant, &q.params), ap, ao);
+                }
+            }
             if b1 != b2 {
                 nontrivial = true;
                 st.count(&format!("owner_sees_difference_{}", q.family));
@@ -2575,6 +3055,8 @@ fn timeline_case(case: u64, rng: &mut Rng, st: &mut Stats) {
         let gov = nx.governance();
         let mut policy = vec![];
         let mut w = World::plain(nx.clone());
+        // (script coordinates - `SeqOfStep`, `TxOfStep` - count from here: every step is one commit)
+        w.start_seq = space_seq(&w.nx).await?;
         run_steps(&mut w, &script, &script.steps, 0).await?;
         // p's authority; for "expiry" the root grant lapses a few milliseconds from now
         let inst = if event == "expiry" {
@@ -3039,6 +3521,8 @@ fn delegation_case(case: u64, rng: &mut Rng, st: &mut Stats) {
         let nx = fresh_nexus(&format!("c19_dg_{case}")).await?;
         let gov = nx.governance();
         let mut w = World::plain(nx.clone());
+        // (script coordinates - `SeqOfStep`, `TxOfStep` - count from here: every step is one commit)
+        w.start_seq = space_seq(&w.nx).await?;
         run_steps(&mut w, &script, &script.steps, 0).await?;
         let mut none = vec![];
         let inst = install(&nx, &cfg, P, "", &mut none).await?;
@@ -3173,7 +3657,7 @@ fn delegation_case(case: u64, rng: &mut Rng, st: &mut Stats) {
                         if is_denied(&a_lead) && succeeded(&a_named) {
                             report(st, format!("C19/delegation/{phase}/named_chain_delegate_allowed_where_delegator_is_denied"), ctx_named("denied to the delegator, answered to the delegate's chain-naming session"));
                         }
-                        let monotone = matches!(q.family, "element" | "element_by_id" | "tuple" | "path" | "history" | "changes") && !q.cmd.contains("LIMIT");
+                        let monotone = matches!(q.family, "element" | "element_by_id" | "tuple" | "path" | "history" | "changes" | "journal") && !q.cmd.contains("LIMIT");
                         if monotone && !*capped && succeeded(&a_named) && succeeded(&a_lead) {
                             let (mut x, mut y) = (BTreeSet::new(), BTreeSet::new());
                             ids_in(&a_named["results"][0]["result"], &mut x);
@@ -3195,7 +3679,7 @@ fn delegation_case(case: u64, rng: &mut Rng, st: &mut Stats) {
                         continue;
                     }
                     // the delegate never sees an element the delegator cannot see (monotone queries only)
-                    let monotone = matches!(q.family, "element" | "element_by_id" | "tuple" | "path" | "history" | "changes") && !q.cmd.contains("LIMIT");
+                    let monotone = matches!(q.family, "element" | "element_by_id" | "tuple" | "path" | "history" | "changes" | "journal") && !q.cmd.contains("LIMIT");
                     if monotone && !*capped {
                         let (mut x, mut y) = (BTreeSet::new(), BTreeSet::new());
                         ids_in(&a_del["results"][0]["result"], &mut x);
@@ -3289,6 +3773,485 @@ fn delegation_case(case: u64, rng: &mut Rng, st: &mut Stats) {
     });
     if let Err(e) = res {
         st.inconclusive(format!("C19 delegation case {case}: {e}"));
+    }
+}
+
+// ---------------------------------------------------------------------------------------------
+// monitor 2b: the standing of a delegator
+//
+// "An explicit deny, a revocation, suspension or expiry takes effect on the very next request; a
+// delegation never confers more than its delegator currently holds." A delegator D holds what it
+// delegates by ONE kind of standing - listed in the Space's `owners` (co-owner), the Space's
+// `owner_principal`, a direct Grant, a Grant to a group it belongs to, a Policy allow statement, or a
+// Delegation of its own (D is itself a delegate: its upstream is a co-owner or a grantee) - and
+// delegates to P, which (every other case) re-delegates to SUB. P sometimes holds a narrow Grant of
+// its own beside the Delegation. Then D's standing changes through the control plane, one event
+// after the other: suspended, reactivated, revoked, reactivated, the standing itself taken away
+// (removed from `owners`, `owner_principal` reassigned, Grant revoked, group left, statement
+// withdrawn, D's own Delegation revoked) and given back, D's upstream suspended / reactivated, or
+// the Grant's `valid_until` passing (a real instant a fraction of a second ahead, waited for).
+// After EVERY event, before anybody else asks anything, the principals downstream of D send their
+// next request (plain sessions and sessions that name their chain), then D, then two fresh
+// principals. Oracles, whenever D holds nothing by construction:
+//  * D's answers equal, byte for byte modulo the principal id, those of a principal that never
+//    held anything;
+//  * P's / SUB's answers equal those of a fresh principal that holds only what P / SUB holds
+//    BESIDE the Delegation (nothing, or the narrow Grant); their chain-naming sessions are
+//    refused, or answered like a principal holding nothing;
+// and after every event: whatever is refused to D now is not answered to P / SUB now (unless
+// their own Grant answers it). What a reactivated / restored D and its delegates get back is
+// counted, not asserted.
+
+const DELEGATOR: &str = "kip:principal:delegator";
+const UPSTREAM: &str = "kip:principal:upstream";
+const SUB: &str = "kip:principal:sub";
+const DELEGATORS_GROUP: &str = "kip:group:delegators";
+const STANDINGS: [&str; 6] = ["co_owner", "owner_principal", "grantee", "group_member", "policy_allowed", "delegate_of_a_delegate"];
+
+/// A short battery over every command family (the non-interference battery is the wide one):
+/// reads, search, chronology, change feed, journal lookups by id and by key, the version log
+/// (AS OF and a snapshot token), export, projection, preview, discovery - and one write.
+fn standing_battery(s: &Script) -> Vec<Q> {
+    let lit = |v: Value| PVal::Lit(v);
+    let word = s.visible_names.first().and_then(|n| n.split(' ').next()).unwrap_or("alpha").to_string();
+    let step = |tag: &str| s.journal.iter().find(|j| j.tag == tag).map(|j| j.step).unwrap_or(0);
+    vec![
+        q("element", r#"FIND(?c.id, ?c.name) WHERE { ?c CONCEPT {type: "Person"} }"#),
+        q("element", r#"FIND(?a.id, ?a.stance) WHERE { ?a ASSERTION {} }"#),
+        q("tuple", r#"FIND(?p.id, ?s.id, ?o.id) WHERE { ?p PROPOSITION (?s, ?pred, ?o) }"#),
+        q("aggregate", r#"FIND(COUNT(?c)) WHERE { ?c CONCEPT {} }"#),
+        qp("search", "SEARCH CONCEPT :term", vec![("term", lit(json!(word)))]),
+        q("history", "HISTORY SPACE"),
+        q("changes", "CHANGES AFTER SEQ 0 LIMIT 5"),
+        qp("journal", "DESCRIBE TRANSACTION :tx", vec![("tx", PVal::TxOfStep(step("visible")))]),
+        q("journal", r#"DESCRIBE TRANSACTION BY IDEMPOTENCY KEY "job:visible""#),
+        q("journal", r#"DESCRIBE TRANSACTION BY IDEMPOTENCY KEY "job:hidden""#),
+        qp("journal", r#"FIND(?c.id, ?c.attributes.jr) WHERE { ?c CONCEPT {type: "Person"} } AS OF TX :tx"#, vec![("tx", PVal::TxOfStep(step("mixed")))]),
+        Q { token_of_step: Some(step("visible")), ..q("journal", r#"FIND(?c.id) WHERE { ?c CONCEPT {type: "Person"} }"#) },
+        q("export", r#"EXPORT CAPSULE ?c WHERE { ?c CONCEPT {type: "Person"} }"#),
+        q("belief", r#"FIND(?p.id, ?b.status) WHERE { ?p PROPOSITION (?s, ?pred, ?o) ?b BELIEF (?p) }"#),
+        q("sequence", "SNAPSHOT"),
+        q("describe_list", "DESCRIBE PRIMER"),
+        q("describe_list", "LIST TYPES"),
+        qp("preview", "PREVIEW KML :cmd", vec![("cmd", lit(json!(r#"ARCHIVE ?c WHERE { ?c CONCEPT {type: "Person"} } LIMIT 5"#)))]),
+        // (last: the first session it is allowed to commits it, the others then write nothing new)
+        qp("write", "UPDATE :t SET ATTRIBUTES {touched: true}", vec![("t", PVal::Id(s.journal_visible.clone()))]),
+    ]
+}
+
+/// Gives `who` one kind of standing; returns the Grant it rests on, where it is a Grant.
+async fn give_standing(nx: &CognitiveNexus, kind: &str, who: &str, actions: &[String], constraints: &AuthorityConstraints, conditions: &AuthorityConditions) -> Result<Option<u64>, String> {
+    let gov = nx.governance();
+    let grant = |grantee: &str, group: &str| GrantDraft {
+        space_id: DEFAULT_SPACE.into(),
+        grantee_principal: grantee.to_string(),
+        grantee_group: group.to_string(),
+        actions: actions.to_vec(),
+        constraints: constraints.clone(),
+        conditions: conditions.clone(),
+        delegation_allowed: true,
+        ..Default::default()
+    };
+    match kind {
+        "co_owner" | "owner_principal" => {
+            let mut space = nx.store.get_space(DEFAULT_SPACE).await.map_err(gerr("get_space"))?;
+            if kind == "co_owner" {
+                if !space.owners.iter().any(|o| o == who) {
+                    space.owners.push(who.to_string());
+                }
+            } else {
+                // (the system Principal the harness acts as stays an owner)
+                if !space.owners.iter().any(|o| o == SYSTEM_PRINCIPAL) {
+                    space.owners.push(SYSTEM_PRINCIPAL.to_string());
+                }
+                space.owner_principal = who.to_string();
+            }
+            nx.store.put_space(&space).await.map_err(gerr("put_space"))?;
+            Ok(None)
+        }
+        "grantee" => Ok(Some(gov.create_grant(grant(who, ""), SYSTEM_PRINCIPAL).await.map_err(gerr("create_grant (standing)"))?._id)),
+        "group_member" => {
+            gov.put_group(GroupDraft { group_id: DELEGATORS_GROUP.into(), name: "delegators".into(), description: "verif".into(), members: vec![who.to_string()] }, SYSTEM_PRINCIPAL)
+                .await
+                .map_err(gerr("put_group (standing)"))?;
+            // the group's Grant is issued once; leaving and joining the group is what changes
+            let held = gov.grants_for(DEFAULT_SPACE, "", &[DELEGATORS_GROUP.to_string()]).await.map_err(gerr("grants_for"))?;
+            match held.first() {
+                Some(g) => Ok(Some(g._id)),
+                None => Ok(Some(gov.create_grant(grant("", DELEGATORS_GROUP), SYSTEM_PRINCIPAL).await.map_err(gerr("create_grant (standing, group)"))?._id)),
+            }
+        }
+        "policy_allowed" => {
+            set_policy(nx, vec![PolicyStatement { effect: "allow".into(), principals: vec![who.to_string()], actions: actions.to_vec(), constraints: constraints.clone(), conditions: conditions.clone(), ..Default::default() }]).await?;
+            Ok(None)
+        }
+        other => Err(format!("no such standing: {other}")),
+    }
+}
+
+/// Takes the standing away again; returns the name of the event.
+async fn take_standing(nx: &CognitiveNexus, kind: &str, who: &str, grant: Option<u64>) -> Result<&'static str, String> {
+    let gov = nx.governance();
+    match kind {
+        "co_owner" | "owner_principal" => {
+            let mut space = nx.store.get_space(DEFAULT_SPACE).await.map_err(gerr("get_space"))?;
+            if kind == "co_owner" {
+                space.owners.retain(|o| o != who);
+            } else {
+                space.owner_principal = SYSTEM_PRINCIPAL.to_string();
+            }
+            nx.store.put_space(&space).await.map_err(gerr("put_space"))?;
+            Ok(if kind == "co_owner" { "removed_from_owners" } else { "owner_principal_reassigned" })
+        }
+        "grantee" => {
+            gov.revoke_grant(grant.ok_or("no grant to revoke")?, SYSTEM_PRINCIPAL).await.map_err(gerr("revoke_grant (standing)"))?;
+            Ok("grant_revoked")
+        }
+        "group_member" => {
+            gov.put_group(GroupDraft { group_id: DELEGATORS_GROUP.into(), name: "delegators".into(), description: "verif".into(), members: vec![] }, SYSTEM_PRINCIPAL)
+                .await
+                .map_err(gerr("put_group (standing, leave)"))?;
+            Ok("leaves_group")
+        }
+        "policy_allowed" => {
+            set_policy(nx, vec![]).await?;
+            Ok("policy_withdrawn")
+        }
+        other => Err(format!("no such standing: {other}")),
+    }
+}
+
+/// A principal downstream of the delegator.
+struct Downstream {
+    role: &'static str,
+    id: &'static str,
+    plain: Session,
+    named: Session,
+    /// holds a narrow Grant of its own beside the Delegation (the fresh principal holds the same)
+    own_grant: bool,
+}
+
+struct StandingCx<'a> {
+    case: u64,
+    standing: &'static str,
+    w: &'a World,
+    script: &'a Script,
+    bat: &'a [Q],
+    downs: Vec<Downstream>,
+    delegator: Session,
+    fresh: Session,
+    fresh0: Session,
+    setup: Value,
+}
+
+/// What a round observed: whether the delegator / a delegate (by virtue of the Delegation) was
+/// answered a read of the Space's content.
+#[derive(Default)]
+struct RoundSeen {
+    delegator_answered: bool,
+    delegate_answered: bool,
+    sub_answered: bool,
+}
+
+/// One round of next requests after `event`. `holds_nothing`: the delegator holds nothing by
+/// construction (not active, standing taken away, upstream not active, or lapsed).
+async fn standing_round(cx: &StandingCx<'_>, st: &mut Stats, event: &str, holds_nothing: bool) -> RoundSeen {
+    let mut seen = RoundSeen::default();
+    let norm = |v: Value, id: &str, q: &Q| {
+        let v = replace_str(&mask(&v), id, "<caller>");
+        // (PREVIEW KML and a committed write advance the Space sequence between two askers)
+        if matches!(q.family, "preview" | "write") { mask_keys(&v, &SEQ_KEYS) } else { v }
+    };
+    let (standing, case) = (cx.standing, cx.case);
+    for q in cx.bat {
+        let reads_content = ["FIND", "SEARCH", "HISTORY", "CHANGES", "EXPORT", "PREVIEW", "DESCRIBE TRANSACTION", "SNAPSHOT"].iter().any(|k| q.cmd.starts_with(k));
+        // the VERY NEXT request of every principal downstream of the change comes first
+        let mut answers = vec![];
+        for d in &cx.downs {
+            let plain = norm(observe(&d.plain, cx.w, cx.script, 0, q).await, d.id, q);
+            let named = norm(observe(&d.named, cx.w, cx.script, 0, q).await, d.id, q);
+            answers.push((plain, named));
+        }
+        let a_d = norm(observe(&cx.delegator, cx.w, cx.script, 0, q).await, DELEGATOR, q);
+        let b = norm(observe(&cx.fresh, cx.w, cx.script, 0, q).await, FRESH, q);
+        let b0 = norm(observe(&cx.fresh0, cx.w, cx.script, 0, q).await, FRESH_NOTHING, q);
+        st.eval();
+        st.count("standing_checks");
+        let ctx = |what: &str, who: &str, got: &Value, want: &Value| {
+            json!({"case": case, "section": "standing", "standing": standing, "event": event, "what": what, "who": who, "setup": cx.setup, "query": q.cmd, "params": cx.w.params(cx.script, 0, &q.params),
+                "first_difference(got|expected)": first_diff(got, want, "$"), "got": short(got, 1200), "expected": short(want, 800), "delegator_now": short(&a_d, 400)})
+        };
+        if succeeded(&a_d) && reads_content {
+            seen.delegator_answered = true;
+        }
+        if holds_nothing {
+            st.count("standing_checks_delegator_holds_nothing");
+            if a_d != b0 {
+                report(st, format!("C19/standing/{standing}/{event}/delegator_next_request_differs_from_a_principal_holding_nothing"), ctx("the delegator holds nothing now", DELEGATOR, &a_d, &b0));
+            }
+        }
+        for (d, (plain, named)) in cx.downs.iter().zip(&answers) {
+            // what this principal holds besides the Delegation answers this much
+            let besides = if d.own_grant { &b } else { &b0 };
+            if succeeded(plain) && reads_content && !succeeded(besides) {
+                if d.role == "delegate" {
+                    seen.delegate_answered = true;
+                } else {
+                    seen.sub_answered = true;
+                }
+            }
+            if holds_nothing {
+                st.count("standing_downstream_next_request_checks");
+                st.count(&format!("standing_downstream_next_request_checks_{}", d.role));
+                if d.own_grant {
+                    st.count("standing_downstream_next_request_checks_delegate_keeps_a_grant_of_its_own");
+                    if succeeded(besides) {
+                        st.count("standing_downstream_answered_from_its_own_grant");
+                    }
+                }
+                // (one signature per standing and event: which principal downstream, through which
+                // kind of session, is in the detail)
+                if plain != besides {
+                    report(
+                        st,
+                        format!("C19/standing/{standing}/{event}/downstream_next_request_differs_from_a_principal_without_the_delegation"),
+                        ctx(&format!("the delegator holds nothing now: its Delegation confers nothing, the {} is left with what it holds besides", d.role), d.id, plain, besides),
+                    );
+                }
+                st.count("standing_downstream_named_chain_checks");
+                if !(is_denied(named) || named == &b0 || named == besides) {
+                    report(
+                        st,
+                        format!("C19/standing/{standing}/{event}/downstream_next_request_differs_from_a_principal_without_the_delegation"),
+                        ctx(&format!("the delegator holds nothing now: the {}'s session naming the chain through it is refused, or answered like a principal holding nothing", d.role), d.id, named, &b0),
+                    );
+                }
+            }
+            // whatever the delegator's standing: refused to it now => not answered to its delegates now
+            // (where it holds nothing this is what the comparison above already says)
+            if is_denied(&a_d) {
+                st.count("standing_delegator_denied_checks");
+                for (how, ans, sess) in [("plain", plain, &d.plain), ("chain-naming", named, &d.named)] {
+                    if !holds_nothing && succeeded(ans) && !succeeded(besides) {
+                        // the delegate asked BEFORE the delegator did, and an authority may lapse in
+                        // between (`valid_until` is a real instant): what counts is its next request
+                        // now that the delegator has been refused
+                        let again = norm(observe(sess, cx.w, cx.script, 0, q).await, d.id, q);
+                        st.count("standing_downstream_asked_again_after_the_delegator_was_refused");
+                        if succeeded(&again) {
+                            report(
+                                st,
+                                format!("C19/standing/{standing}/{event}/downstream_answered_where_the_delegator_is_refused"),
+                                ctx(&format!("refused to the delegator, and answered afterwards to the {how} session of the {}, which holds it only through the delegator's Delegation", d.role), d.id, &again, &a_d),
+                            );
+                        }
+                    }
+                }
+            }
+        }
+    }
+    seen
+}
+
+fn standing_case(case: u64, rng: &mut Rng, st: &mut Stats) {
+    let standing = STANDINGS[(case % STANDINGS.len() as u64) as usize];
+    let round = case / STANDINGS.len() as u64;
+    let script = gen_script(rng, 3);
+    let bat = standing_battery(&script);
+    // P re-delegates to SUB in every other case; the order of the events rotates, so that each
+    // kind is sometimes the FIRST change after a quiet period
+    let depth2 = round % 2 == 1;
+    let order = round % 3;
+    let upstream_standing = if (round / 2) % 2 == 0 { "co_owner" } else { "grantee" };
+    let own_grant = rng.chance(1, 3);
+    let ceiling = *rng.pick(&["", "internal", "private", "sensitive"]);
+    let expiry = order == 2 && matches!(standing, "grantee" | "group_member");
+    let mut actions: Vec<String> = READ_ACTIONS.iter().map(|a| a.to_string()).collect();
+    if rng.bool() {
+        actions.push("update".into());
+    }
+    let chain = standing == "delegate_of_a_delegate";
+    let res: Result<(), String> = vcore::run::block_on(async {
+        let nx = fresh_nexus(&format!("c19_st_{case}")).await?;
+        let gov = nx.governance();
+        let mut w = World::plain(nx.clone());
+        w.start_seq = space_seq(&w.nx).await?;
+        run_steps(&mut w, &script, &script.steps, 0).await?;
+        for id in [DELEGATOR, UPSTREAM, P, SUB, FRESH, FRESH_NOTHING] {
+            principal(&nx, id).await?;
+        }
+        let constraints = AuthorityConstraints { max_classification: ceiling.to_string(), export: true, ..Default::default() };
+        // (an expiring standing lapses a fraction of a second from now; every Delegation under it
+        // restates the instant, or it would outlive its delegator and confer nothing from the start)
+        let lapses_at = std::time::Instant::now() + std::time::Duration::from_millis(1500);
+        let conditions = AuthorityConditions { valid_until: if expiry { chrono_now_plus_ms(1500) } else { String::new() }, ..Default::default() };
+        let link = |from: &str, to: &str, parent: String, redelegate: bool| DelegationDraft {
+            space_id: DEFAULT_SPACE.into(),
+            delegator_principal: from.to_string(),
+            delegate_principal: to.to_string(),
+            actions: actions.clone(),
+            constraints: constraints.clone(),
+            conditions: conditions.clone(),
+            parent_delegation: parent,
+            may_redelegate: redelegate,
+            ..Default::default()
+        };
+        let did = anda_cognitive_nexus::governance::store::delegation_id;
+        // --- the delegator's standing
+        let mut chain_ids: Vec<String> = vec![];
+        let mut grant = None;
+        let mut own_link = None;
+        if chain {
+            give_standing(&nx, upstream_standing, UPSTREAM, &actions, &constraints, &conditions).await?;
+            let l = gov.create_delegation(link(UPSTREAM, DELEGATOR, String::new(), true), UPSTREAM).await.map_err(gerr("create_delegation (upstream)"))?._id;
+            own_link = Some(l);
+            chain_ids.push(did(l));
+        } else {
+            grant = give_standing(&nx, standing, DELEGATOR, &actions, &constraints, &conditions).await?;
+        }
+        // --- downstream
+        let to_p = gov.create_delegation(link(DELEGATOR, P, chain_ids.last().cloned().unwrap_or_default(), depth2), DELEGATOR).await.map_err(gerr("create_delegation (delegator -> p)"))?._id;
+        chain_ids.push(did(to_p));
+        let mut downs = vec![Downstream { role: "delegate", id: P, plain: session(&nx, P), named: nx.session(AuthContext::principal(P).with_delegation_chain(chain_ids.clone())), own_grant }];
+        if depth2 {
+            let to_sub = gov.create_delegation(link(P, SUB, did(to_p), false), P).await.map_err(gerr("create_delegation (p -> sub)"))?._id;
+            chain_ids.push(did(to_sub));
+            downs.push(Downstream { role: "delegate_of_the_delegate", id: SUB, plain: session(&nx, SUB), named: nx.session(AuthContext::principal(SUB).with_delegation_chain(chain_ids.clone())), own_grant: false });
+        }
+        if case % 2 == 1 {
+            downs.reverse(); // (who asks first after an event alternates)
+        }
+        if own_grant {
+            for who in [P, FRESH] {
+                gov.create_grant(
+                    GrantDraft {
+                        space_id: DEFAULT_SPACE.into(),
+                        grantee_principal: who.into(),
+                        actions: vec!["read".into(), "search".into(), "discover".into()],
+                        scope: AuthorityScope { kinds: vec!["concept".into()], ..Default::default() },
+                        constraints: AuthorityConstraints { fields: vec!["name".into()], max_classification: "internal".into(), ..Default::default() },
+                        ..Default::default()
+                    },
+                    SYSTEM_PRINCIPAL,
+                )
+                .await
+                .map_err(gerr("create_grant (own)"))?;
+            }
+        }
+        let setup = json!({"standing": standing, "upstream_standing": if chain { upstream_standing } else { "" }, "delegate_re_delegates": depth2, "delegate_keeps_a_grant_of_its_own": own_grant,
+            "actions": actions, "ceiling": ceiling, "expiring": expiry, "named_chain": chain_ids});
+        let cx = StandingCx { case, standing, w: &w, script: &script, bat: &bat, downs, delegator: session(&nx, DELEGATOR), fresh: session(&nx, FRESH), fresh0: session(&nx, FRESH_NOTHING), setup };
+        st.count(&format!("standing_cases_{standing}"));
+        if chain {
+            st.count(&format!("standing_cases_delegate_of_a_delegate_under_a_{upstream_standing}"));
+        }
+        if depth2 {
+            st.count("standing_cases_delegate_re_delegates");
+        }
+        // --- before anything changes
+        let before = standing_round(&cx, st, "initial", false).await;
+        if before.delegator_answered {
+            st.count(&format!("standing_delegator_answered_before_the_events_{standing}"));
+        }
+        if before.delegate_answered {
+            st.count("standing_delegate_answered_before_the_events");
+            st.count(&format!("standing_delegate_answered_before_the_events_{standing}"));
+        }
+        if before.sub_answered {
+            st.count("standing_delegate_of_the_delegate_answered_before_the_events");
+        }
+        // --- the events
+        let status_events: &[&str] = match order {
+            0 => &["suspend", "reactivate", "revoke_principal", "reactivate"],
+            1 => &["revoke_principal", "reactivate", "suspend", "reactivate"],
+            _ => &[],
+        };
+        let mut events: Vec<&str> = vec![];
+        for (i, ev) in status_events.iter().enumerate() {
+            if i == 2 && chain {
+                events.extend(["upstream_suspended", "upstream_reactivated"]);
+            }
+            events.push(ev);
+        }
+        if expiry {
+            events.push("expiry");
+        } else {
+            events.push("removal");
+            if order == 2 && !chain {
+                events.extend(["restore", "suspend"]);
+            }
+        }
+        let (mut active, mut has_standing, mut upstream_active, mut lapsed) = (true, true, true, false);
+        for ev in events {
+            let mut name = ev;
+            match ev {
+                "suspend" | "revoke_principal" | "reactivate" => {
+                    let to = match ev {
+                        "suspend" => status::SUSPENDED,
+                        "revoke_principal" => status::REVOKED,
+                        _ => status::ACTIVE,
+                    };
+                    gov.set_principal_status(DELEGATOR, to, SYSTEM_PRINCIPAL).await.map_err(gerr("set_principal_status (delegator)"))?;
+                    active = ev == "reactivate";
+                }
+                "upstream_suspended" | "upstream_reactivated" => {
+                    upstream_active = ev == "upstream_reactivated";
+                    gov.set_principal_status(UPSTREAM, if upstream_active { status::ACTIVE } else { status::SUSPENDED }, SYSTEM_PRINCIPAL).await.map_err(gerr("set_principal_status (upstream)"))?;
+                }
+                "removal" => {
+                    name = if chain {
+                        gov.revoke_delegation(own_link.ok_or("no upstream link")?, SYSTEM_PRINCIPAL).await.map_err(gerr("revoke_delegation (the delegator's own)"))?;
+                        "own_delegation_revoked"
+                    } else {
+                        take_standing(&nx, standing, DELEGATOR, grant).await?
+                    };
+                    has_standing = false;
+                }
+                "restore" => {
+                    grant = give_standing(&nx, standing, DELEGATOR, &actions, &constraints, &conditions).await?;
+                    has_standing = true;
+                }
+                _ => {
+                    // expiry: wait until the instant has certainly passed (millisecond resolution)
+                    let now = std::time::Instant::now();
+                    if lapses_at > now {
+                        tokio::time::sleep(lapses_at - now).await;
+                    }
+                    tokio::time::sleep(std::time::Duration::from_millis(40)).await;
+                    lapsed = true;
+                }
+            }
+            let holds_nothing = !(active && has_standing && upstream_active && !lapsed);
+            st.count(&format!("standing_event_{name}"));
+            st.count(&format!("standing_event_{standing}_{name}"));
+            let seen = standing_round(&cx, st, name, holds_nothing).await;
+            if !holds_nothing {
+                // what comes back is the engine's choice: counted
+                st.count("standing_rounds_delegator_in_good_standing_again");
+                if seen.delegator_answered {
+                    st.count("standing_rounds_delegator_answered_again");
+                }
+                if seen.delegate_answered {
+                    st.count("standing_rounds_delegate_answered_again");
+                }
+            } else if before.delegate_answered {
+                // the rounds that carry the weight: the delegate did read through this Delegation
+                st.count("standing_rounds_after_the_delegate_had_been_answered");
+                st.count(&format!("standing_rounds_after_the_delegate_had_been_answered_{standing}"));
+                st.count(&format!("standing_rounds_after_the_delegate_had_been_answered_event_{name}"));
+                if before.sub_answered {
+                    st.count("standing_rounds_after_the_delegate_of_the_delegate_had_been_answered");
+                }
+            }
+        }
+        if expiry && !before.delegate_answered {
+            st.count("standing_expiry_lapsed_before_the_first_request");
+        }
+        st.sample(|| json!({"monitor": "standing", "case": case, "setup": cx.setup, "delegate_answered_before": before.delegate_answered}));
+        Ok(())
+    });
+    if let Err(e) = res {
+        st.inconclusive(format!("C19 standing case {case} ({standing}): {e}"));
     }
 }
 
@@ -3621,10 +4584,12 @@ fn main() {
     let t = run.tier;
     let thorough = t == vcore::Tier::Thorough;
     if run.wants("ni") {
-        run.parallel("ni", t.pick(64, 1700), 0.6, |c, rng, st| ni_case(c, rng, st, thorough));
+        // (thorough ran 1700 configurations before the journal family made each about 15% dearer; every
+        // floor below keeps a margin of 1.4x and more at 1400)
+        run.parallel("ni", t.pick(64, 1400), 0.6, |c, rng, st| ni_case(c, rng, st, thorough));
     }
     if run.wants("timeline") {
-        run.parallel("timeline", t.pick(48, 1300), 0.4, |c, rng, st| timeline_case(c, rng, st));
+        run.parallel("timeline", t.pick(48, 1100), 0.4, |c, rng, st| timeline_case(c, rng, st));
     }
     if run.wants("escalation") {
         run.parallel("escalation", t.pick(14, 320), 0.6, |c, rng, st| escalation_case(c, rng, st));
@@ -3632,9 +4597,13 @@ fn main() {
     if run.wants("delegation") {
         run.parallel("delegation", t.pick(64, 1400), 0.5, |c, rng, st| delegation_case(c, rng, st));
     }
+    if run.wants("standing") {
+        run.parallel("standing", t.pick(48, 300), 0.9, |c, rng, st| standing_case(c, rng, st));
+    }
     // --- evidence floors: every mechanism the property names was exercised
-    // thorough runs ~35x the configurations of quick; its floors are 20x quick's, which leaves room
-    // for cases skipped when the time budget runs out on a loaded machine
+    // thorough runs 22x (non-interference, timeline, delegation, escalation) the configurations of quick;
+    // its floors are 20x quick's - quick's own floors sit well below what quick observes -, which leaves
+    // room for cases skipped when the time budget runs out on a loaded machine
     let f = |q: u64| t.pick(q, q * 20);
     for (key, min) in [
         // non-interference
@@ -3834,6 +4803,69 @@ fn main() {
         ("access_checks_mutation_without_write_authority", f(4000)),
         ("access_checks_scoped_writer_commands", f(1000)),
         ("access_checks_scoped_writer_mutations_executed", f(50)),
+        // the journal block: every entry point over all-visible / mixed / all-hidden, keyed / unkeyed transactions
+        ("ni_decisive_pairs_journal", f(130)),
+        ("ni_decisive_judged_pairs_hidden_elements_journal", f(130)),
+        ("journal_store_checks", f(730)),
+        ("journal_subset_checks", f(600)),
+        ("journal_store_checks_describe_transaction_by_idempotency_key", f(160)),
+        ("journal_store_checks_describe_transaction", f(110)),
+        ("journal_store_checks_history_space", f(165)),
+        ("journal_store_checks_history_element", f(140)),
+        ("journal_store_checks_changes_after_seq", f(145)),
+        ("journal_store_checks_changes_since", f(30)),
+        ("journal_lookups_by_key_hidden", f(85)),
+        ("journal_lookups_by_key_mixed", f(35)),
+        ("journal_lookups_by_key_visible", f(33)),
+        ("journal_lookups_by_id_hidden", f(140)),
+        ("journal_lookups_by_id_mixed", f(33)),
+        ("journal_lookups_by_id_visible", f(80)),
+        ("journal_mixed_transaction_partly_shown_to_p", f(50)),
+        ("journal_visible_transaction_shown_to_p", f(85)),
+        ("journal_history_of_an_unreadable_element_checks", f(70)),
+    ] {
+        run.floor(key, min);
+    }
+    // the standing of a delegator (thorough runs 6x the cases of quick; floors 3x: the section comes last)
+    let g = |q: u64| t.pick(q, q * 3);
+    for standing in STANDINGS {
+        run.floor(&format!("standing_cases_{standing}"), g(2));
+        if standing != "policy_allowed" {
+            // (a Policy statement cannot be delegated from: that Delegation confers nothing from the start)
+            run.floor(&format!("standing_delegate_answered_before_the_events_{standing}"), g(2));
+            run.floor(&format!("standing_rounds_after_the_delegate_had_been_answered_{standing}"), g(6));
+        }
+        for event in ["suspend", "revoke_principal"] {
+            run.floor(&format!("standing_event_{standing}_{event}"), g(2));
+        }
+    }
+    for (key, min) in [
+        ("standing_cases_delegate_of_a_delegate_under_a_co_owner", g(1)),
+        ("standing_cases_delegate_of_a_delegate_under_a_grantee", g(1)),
+        ("standing_cases_delegate_re_delegates", g(8)),
+        ("standing_delegate_of_the_delegate_answered_before_the_events", g(6)),
+        ("standing_event_suspend", g(14)),
+        ("standing_event_revoke_principal", g(12)),
+        ("standing_event_reactivate", g(24)),
+        ("standing_event_removed_from_owners", g(2)),
+        ("standing_event_owner_principal_reassigned", g(2)),
+        ("standing_event_grant_revoked", g(2)),
+        ("standing_event_leaves_group", g(2)),
+        ("standing_event_policy_withdrawn", g(2)),
+        ("standing_event_own_delegation_revoked", g(2)),
+        ("standing_event_upstream_suspended", g(2)),
+        ("standing_event_restore", g(2)),
+        ("standing_event_expiry", g(1)),
+        ("standing_rounds_after_the_delegate_had_been_answered_event_expiry", g(1)),
+        ("standing_rounds_after_the_delegate_had_been_answered", g(36)),
+        ("standing_rounds_after_the_delegate_of_the_delegate_had_been_answered", g(18)),
+        ("standing_checks_delegator_holds_nothing", g(800)),
+        ("standing_downstream_next_request_checks", g(1200)),
+        ("standing_downstream_next_request_checks_delegate_of_the_delegate", g(400)),
+        ("standing_downstream_next_request_checks_delegate_keeps_a_grant_of_its_own", g(100)),
+        ("standing_downstream_answered_from_its_own_grant", g(50)),
+        ("standing_downstream_named_chain_checks", g(1200)),
+        ("standing_rounds_delegator_answered_again", g(20)),
     ] {
         run.floor(key, min);
     }
